@@ -188,8 +188,14 @@ def clausesWFAll : Filters → Bool
   | .cons f r => clausesWF f && clausesWFAll r
 end
 
-/-- a concrete evaluator for the boolean fragment: identifiers are looked up in `ρ`, `true`/`false`
-literals, `! && || ?:` and parentheses have their usual meaning (anything else is `false`) -/
+/-- equality of two literal tokens: same terminal and same text -/
+def litEq (k1 : LitK) (s1 : String) (k2 : LitK) (s2 : String) : Bool := k1 == k2 && s1 == s2
+
+mutual
+/-- a concrete evaluator for the boolean fragment: identifiers are looked up in `ρ`; `true`/`false`,
+`! && || ?:` and parentheses have their usual meaning. To evaluate the clause representatives of
+the correspondence run it also knows `==`/`!=` (between two literals: same text; otherwise between
+boolean values), `x in [..]`, `[..].exists(v, v)` and `{k: v}[k]`. Anything else is `false`. -/
 def evalBool (ρ : String → Bool) : PExpr → Bool
   | .ident s => ρ s
   | .lit .bool s => s == "true"
@@ -198,7 +204,21 @@ def evalBool (ρ : String → Bool) : PExpr → Bool
   | .and a b => evalBool ρ a && evalBool ρ b
   | .or a b => evalBool ρ a || evalBool ρ b
   | .cond c a b => if evalBool ρ c then evalBool ρ a else evalBool ρ b
+  | .rel .eq (.lit k1 s1) (.lit k2 s2) => litEq k1 s1 k2 s2
+  | .rel .ne (.lit k1 s1) (.lit k2 s2) => !litEq k1 s1 k2 s2
+  | .rel .eq a b => evalBool ρ a == evalBool ρ b
+  | .rel .ne a b => evalBool ρ a != evalBool ρ b
+  | .rel .in_ a (.list es) => memB ρ (evalBool ρ a) es
+  | .dotArg (.list es) "exists" (.cons (.ident _) (.cons (.ident _) .nil)) => anyB ρ es
+  | .index (.map (.cons _ v .nil)) _ => evalBool ρ v
   | _ => false
+def anyB (ρ : String → Bool) : PArgs → Bool
+  | .nil => false
+  | .cons e r => evalBool ρ e || anyB ρ r
+def memB (ρ : String → Bool) (v : Bool) : PArgs → Bool
+  | .nil => false
+  | .cons e r => (evalBool ρ e == v) || memB ρ v r
+end
 
 /-! ### the translator before the fix 71012e7 (kept for the regression witness) -/
 
@@ -215,4 +235,28 @@ def connectAllOld : Nat → Filters → List (List Tok)
   | level, .cons f r => logicalConnectorOld level f :: connectAllOld level r
 end
 
+end Cel.Xlate
+
+namespace Cel.Xlate
+/-! ### the source the model was written against
+
+Canonical templates of the branches of `logical_connector` / `operands` as produced by the
+symbolic reader `py/verif/translate/gen_c18.py` (`rec` = recursive call, `join` = `" op ".join`,
+`fmt` = f-string). `logicalConnector`, `operands` above are these templates on token lists;
+`Cel.Bridge.Xlate` proves that today's source still yields exactly them. -/
+def sourceBranches : List (String × String) := [
+  ("and", "if(level > 1, fmt('(' join('&&', operands(map(rec(x, level + 1), x, filter['and']))) ')'), join('&&', operands(map(rec(x, level + 1), x, filter['and']))))"),
+  ("else-dict", "prim(filter)"),
+  ("else-outer", "raise"),
+  ("list", "if(level > 1, fmt('(' join('&&', operands(map(rec(x, level + 1), x, filter))) ')'), join('&&', operands(map(rec(x, level + 1), x, filter))))"),
+  ("not", "fmt('!(' if(len(filter['not']) == 1, rec(filter['not'][0], level + 1), join('&&', operands(map(rec(x, level + 1), x, filter['not'])))) ')')"),
+  ("or", "if(level > 1, fmt('(' join('||', operands(map(rec(x, level + 1), x, filter['or']))) ')'), join('||', operands(map(rec(x, level + 1), x, filter['or']))))")
+]
+def sourceOperands : String :=
+  "if(len(clauses) < 2, clauses, map(if(top_level_logic(x), fmt('(' x ')'), x), x, clauses))"
+/-- string constants the character scanner `top_level_logic` tests for: quotes, the three logical
+operators, brackets, the escape character -/
+def sourceScannerConstants : List String := ["\"'", "&&", "([{", ")]}", "?", "\\", "||"]
+/-- fingerprint of the scanner's normalised AST (control flow of the loop) -/
+def sourceScannerFingerprint : String := "773fcab0b0908501"
 end Cel.Xlate
